@@ -1,6 +1,7 @@
 package rules
 
 import (
+	"cvsslint/internal/report"
 	"fmt"
 	"go/constant"
 	"go/types"
@@ -254,6 +255,9 @@ func (k *scoreKit) method(from, of *facts.Level, name string, args ...*ir.Term) 
 }
 
 func (k *scoreKit) mathCall(name string, args ...*ir.Term) *ir.Term {
+	if (name == "Min" || name == "Max") && len(args) == 2 {
+		return ir.FMinMax(name == "Min", args[0], args[1])
+	}
 	f := k.mathFn[name]
 	if f == nil {
 		panic("package does not import math." + name)
@@ -384,6 +388,30 @@ type kfHit struct {
 	fn   string // function containing the rounding call
 	role string
 	pos  string
+}
+
+// compareScoreAny compares fn with several equivalent forms of the reference equation and reports the first one
+// that matches completely; if none does, the findings against the first form are reported.
+func (k *scoreKit) compareScoreAny(rule string, fn *types.Func, refs ...[]refLeaf) (hits []kfHit, ok bool) {
+	real := k.e.C
+	defer func() { k.e.C = real }()
+	var first *report.Ctx
+	var firstHits []kfHit
+	for _, ref := range refs {
+		tmp := report.NewCtx(real.Prop, real.Tier)
+		tmp.Variant = real.Variant
+		k.e.C = tmp
+		h, good := k.compareScore(rule, fn, ref)
+		if good {
+			real.Obs = append(real.Obs, tmp.Obs...)
+			return h, true
+		}
+		if first == nil {
+			first, firstHits = tmp, h
+		}
+	}
+	real.Obs = append(real.Obs, first.Obs...)
+	return firstHits, false
 }
 
 // compareScore compares the extracted leaves of fn with the reference leaves.
